@@ -103,11 +103,11 @@ Definition bool_text (b : bool) : str :=
 
 (* Does TagList define __iadd__ itself, delegating to extend and returning self?
    Unrepaired tree: no, += is collections.UserList.__iadd__.                        *)
-Definition iadd_delegates_to_extend : bool := false.
+Definition iadd_delegates_to_extend : bool := true.
 
 (* Is int in the isinstance tuple of is_tag_child (bool is a subclass of int)?
    Unrepaired tree: no, the tuple is (TagList, float, Sequence).                    *)
-Definition child_tuple_has_int : bool := false.
+Definition child_tuple_has_int : bool := true.
 
 (* ------------------------------------------------------------------------------ *)
 (* is_tag_node / is_tag_child                                                      *)
